@@ -10,6 +10,7 @@ def R(harness, args, variant="asan", env=True, sched=False, share=None, environ=
     return d
 
 CHECKS = {}
+ABN = "sanitizer,crash,hang,lib-fatal,unexpected-exit"
 
 CHECKS["C16"] = dict(
     quick=[
@@ -38,8 +39,13 @@ CHECKS["C05"] = dict(
         R("h_theap", "part=closure n=15 keys=2", env=False),
         R("h_theap", "part=closure n=13 keys=3", env=False),
         R("h_theap", "part=boundary depth=2", env=False),
+        R("h_theap", "part=closure n=9 keys=4 farkey=4", env=False),
+        # registering a timer must not change when another fires: also through the loop's repeated-deadline optimisation
+        R("h_loop", "bound=2 seeds=16,17,7 nfd=1 ntm=3 ntk=0 nev=0 horizon=14 ops=leave,tmreg,tmunreg rules=timer-early,timer-twice,oversleep,timer-starved,%s" % ABN),
     ],
     thorough=[
+        R("h_theap", "part=closure n=11 keys=5 farkey=5", env=False, share=0.2),
+        R("h_loop", "bound=3 seeds=16,17,7 nfd=1 ntm=3 ntk=0 nev=0 horizon=14 ops=leave,tmreg,tmunreg rules=timer-early,timer-twice,oversleep,timer-starved,%s" % ABN, share=0.3),
         R("h_theap", "part=closure n=11 keys=5 handlers=6", env=False, share=0.4),
         R("h_theap", "part=closure n=16 keys=2 handlers=5", env=False),
         R("h_theap", "part=closure n=14 keys=3", env=False, share=0.3),
@@ -65,7 +71,6 @@ CHECKS["C05"] = dict(
 NOT_CLAIMED = {}
 
 # ---------------------------------------------------------------- h_loop profiles
-ABN = "sanitizer,crash,hang,lib-fatal,unexpected-exit"
 LOOP_ASSUME = [
     "time is virtual: it advances only at a blocking point (to the wait deadline) or by an explicit 'long operation' followed by iv_invalidate_now()",
     "descriptors are AF_UNIX stream socket pairs whose peer the harness drives; kernel semantics of epoll/poll/eventfd are the host's",
@@ -73,7 +78,7 @@ LOOP_ASSUME = [
     "<=3 fds, <=3 timers, <=3 tasks, <=2 events; <=2 actions per callback; loop horizon 10 iterations",
 ]
 UNREG_OPS = "leave,fdunreg,tmunreg,tkunreg,evunreg,rawunreg,sigunreg"
-ALL_SEEDS_C01 = "11,2,6,7,8,9,10,12,24,3,22,21"
+ALL_SEEDS_C01 = "11,2,6,7,8,9,10,12,24,3,22,21,26,28"
 
 CHECKS["C01"] = dict(
     quick=[
@@ -82,8 +87,12 @@ CHECKS["C01"] = dict(
         # any API action from any callback, 1 deviation
         R("h_loop", "bound=1 seeds=%s,1,5,13,14,15,16,19,20 nfd=3 ntm=3 ntk=2 nev=2 nraw=1 nsig=1 nwk=1 rules=stale-callback,cookie,oneshot-registered,%s" % (ALL_SEEDS_C01, ABN)),
         R("h_inotify", "bound=1"),
+        # cross-thread posts: the owner's event handlers unregister+free other events and the owner's descriptor
+        R("h_event_mt", "bound=2 transports=0-3 p1=0,3,4 p2=0,3 hacts=1", sched=True),
     ],
     thorough=[
+        R("h_event_mt", "bound=3 transports=0-3 hacts=2", sched=True, share=0.3),
+        R("h_wait", "bound=1 steps=4", sched=True, share=0.2),
         R("h_loop", "bound=3 seeds=%s nfd=3 ntm=3 ntk=2 nev=2 nraw=1 nsig=1 ops=%s rules=stale-callback,cookie,oneshot-registered,%s" % (ALL_SEEDS_C01, UNREG_OPS, ABN), share=0.5),
         R("h_loop", "bound=2 seeds=%s nfd=2 ntm=2 ntk=2 nev=1 nraw=1 nsig=1 rules=stale-callback,cookie,oneshot-registered,%s" % (ALL_SEEDS_C01, ABN)),
     ],
@@ -97,14 +106,17 @@ CHECKS["C01"] = dict(
     deadline=dict(quick=150, thorough=900),
 )
 
-FD_OPS = "leave,fdreg,fdtry,fdunreg,fdseth,feed,drain,fill,unfill,pclose,pshut,tkreg"
-FD_SEEDS = "1,2,3,4,5,14,15,19,22,24"
+FD_OPS = "leave,fdreg,fdtry,fdtrybad,fdunreg,fdseth,feed,drain,fill,unfill,pclose,pshut,tkreg"
+FD_SEEDS = "1,2,3,4,5,14,15,19,22,24,26,28,29"
 CHECKS["C02"] = dict(
     quick=[
         R("h_loop", "bound=2 seeds=%s nfd=3 ntm=0 ntk=1 nev=0 ops=%s rules=fd-sleep,fd-starved,%s" % (FD_SEEDS, FD_OPS, ABN)),
+        # caller memory with other byte patterns; a struct whose registration failed is initialised again and re-used
+        R("h_loop", "bound=2 poisons=1 seeds=0,1,19 nfd=2 ntm=0 ntk=0 nev=0 ops=leave,fdreg,fdtrybad,fdunreg,feed rules=fd-sleep,fd-starved,%s" % ABN),
     ],
     thorough=[
-        R("h_loop", "bound=3 seeds=%s nfd=2 ntm=0 ntk=1 nev=0 ops=%s rules=fd-sleep,fd-starved,%s" % (FD_SEEDS, FD_OPS, ABN)),
+        R("h_loop", "bound=3 seeds=%s nfd=2 ntm=0 ntk=1 nev=0 ops=%s rules=fd-sleep,fd-starved,%s" % (FD_SEEDS, FD_OPS, ABN), share=0.8),
+        R("h_loop", "bound=2 poisons=1 seeds=0,1,4,19 nfd=2 ntm=0 ntk=1 nev=0 ops=leave,fdreg,fdtry,fdtrybad,fdunreg,fdseth,feed rules=fd-sleep,fd-starved,%s" % ABN),
     ],
     rule=CHECKS["C01"]["rule"],
     explanation="at every entry to the kernel wait the harness takes poll(2) ground truth for every registered descriptor: if a band has a "
@@ -133,6 +145,8 @@ CHECKS["C04"] = dict(
     quick=[
         R("h_loop", "bound=2 seeds=%s nfd=1 ntm=3 ntk=1 nev=0 horizon=14 ops=%s rules=timer-early,timer-twice,oversleep,stale-callback,oneshot-registered,%s" % (TM_SEEDS, TM_OPS, ABN)),
         # a population large enough for interior heap positions: 7 timers, any two unregistered / re-armed
+        # interrupted waits (immediately / after half of the sleep) must not make the loop oversleep
+        R("h_loop", "bound=2 seeds=7,13,8 nfd=1 ntm=3 ntk=0 nev=0 eintr_wait=1 ops=leave,tmreg,tmunreg rules=timer-early,timer-twice,oversleep,%s" % ABN),
         R("h_loop", "bound=2 seeds=25 nfd=0 ntm=7 ntk=0 nev=0 horizon=12 ops=leave,tmunreg,tmreg rules=timer-early,timer-twice,oversleep,stale-callback,oneshot-registered,%s" % ABN),
     ],
     thorough=[
@@ -152,6 +166,8 @@ CHECKS["C06"] = dict(
         R("h_loop", "bound=3 seeds=9,6,10,0,1,21 nfd=1 ntm=1 ntk=3 nev=1 nwk=1 ops=%s rules=sleep-with-task,task-same-round,oneshot-registered,stale-callback,fd-starved,work-,%s" % (TK_OPS, ABN)),
         # same programs, but a task slot keeps its struct: re-registration re-uses the memory that already ran (no IV_TASK_INIT)
         R("h_loop", "bound=3 tkkeep=1 seeds=9,6,10 nfd=1 ntm=0 ntk=3 nev=0 ops=leave,tkreg,tkunreg,feed rules=sleep-with-task,task-same-round,oneshot-registered,stale-callback,fd-starved,%s" % ABN),
+        # wall-clock time passes (1 ms per loop iteration) while task chains keep the loop from sleeping: timers and descriptors must still be served
+        R("h_loop", "bound=2 drift_ns=1000000 autotask=30 seeds=27,6,9 nfd=1 ntm=1 ntk=2 nev=0 horizon=40 ops=leave,tkreg,fdreg,feed,tmreg rules=timer-starved,fd-starved,task-same-round,%s" % ABN),
     ],
     thorough=[
         R("h_loop", "bound=4 seeds=9,6,10,0,1,21 nfd=1 ntm=1 ntk=3 nev=1 nwk=1 ops=%s rules=sleep-with-task,task-same-round,oneshot-registered,stale-callback,fd-starved,work-,%s" % (TK_OPS, ABN)),
@@ -167,6 +183,7 @@ C07_RULES = "main-should-return,main-return-early,spin,nested-callback,callback-
 CHECKS["C07"] = dict(
     quick=[
         R("h_loop", "bound=2 seeds=0,1,6,10,11,12,20,21,23 nfd=2 ntm=1 ntk=1 nev=2 nraw=1 nsig=1 nwk=1 emfile=1 rules=%s" % C07_RULES),
+        R("h_loop", "bound=2 seeds=16,17,18 nfd=1 ntm=3 ntk=1 nev=0 horizon=14 ops=leave,tmreg,tmunreg,tkreg,feed rules=%s" % C07_RULES),
     ],
     thorough=[
         R("h_loop", "bound=3 seeds=0,1,6,10,11,12,20,21,23 nfd=2 ntm=1 ntk=1 nev=2 nraw=1 nsig=1 nwk=1 emfile=1 acts=2 rules=%s" % C07_RULES),
@@ -248,20 +265,20 @@ C14_ASSUME = MT_ASSUME + [
     "sequentially consistent data-race freedom at C level; weak hardware orderings are not explored",
 ]
 CHECKS["C14"] = dict(
-    quick=[R("h_event_mt", "bound=1 transports=0-3 hacts=1", variant="tsan", sched=True),
-           R("h_raw", "bound=2", variant="tsan", sched=True),
-           R("h_work", "bound=1 progs=0,1,3,4,5,8 puts=0,2,3", variant="tsan", sched=True),
-           R("h_thread", "bound=2", variant="tsan", sched=True),
-           R("h_loops_mt", "bound=3", variant="tsan", sched=True),
-           R("h_wait", "bound=1 steps=3", variant="tsan", sched=True),
-           R("h_signal", "bound=1 steps=2", variant="tsan", sched=True)],
-    thorough=[R("h_event_mt", "bound=2 transports=0-4 hacts=1", variant="tsan", sched=True),
-              R("h_raw", "bound=4", variant="tsan", sched=True),
-              R("h_work", "bound=2 methods=0,2 maxthreads=2", variant="tsan", sched=True),
-              R("h_thread", "bound=4", variant="tsan", sched=True),
-              R("h_loops_mt", "bound=4 cycles=2", variant="tsan", sched=True),
-              R("h_wait", "bound=1 steps=6", variant="tsan", sched=True),
-              R("h_signal", "bound=2 steps=3", variant="tsan", sched=True)],
+    quick=[R("h_event_mt", "bound=1 transports=0-3 hacts=1 scan_stderr=1", variant="tsan", sched=True),
+           R("h_raw", "bound=2 scan_stderr=1", variant="tsan", sched=True),
+           R("h_work", "bound=1 progs=0,1,3,4,5,8 puts=0,2,3 scan_stderr=1", variant="tsan", sched=True),
+           R("h_thread", "bound=2 scan_stderr=1", variant="tsan", sched=True),
+           R("h_loops_mt", "bound=3 scan_stderr=1", variant="tsan", sched=True),
+           R("h_wait", "bound=1 steps=3 scan_stderr=1", variant="tsan", sched=True),
+           R("h_signal", "bound=1 steps=2 scan_stderr=1", variant="tsan", sched=True)],
+    thorough=[R("h_event_mt", "bound=2 transports=0-4 hacts=1 scan_stderr=1", variant="tsan", sched=True),
+              R("h_raw", "bound=4 scan_stderr=1", variant="tsan", sched=True),
+              R("h_work", "bound=2 methods=0,2 maxthreads=2 scan_stderr=1", variant="tsan", sched=True),
+              R("h_thread", "bound=4 scan_stderr=1", variant="tsan", sched=True),
+              R("h_loops_mt", "bound=4 cycles=2 scan_stderr=1", variant="tsan", sched=True),
+              R("h_wait", "bound=1 steps=6 scan_stderr=1", variant="tsan", sched=True),
+              R("h_signal", "bound=2 steps=3 scan_stderr=1", variant="tsan", sched=True)],
     rule="the multi-threaded scenario programs of C08-C13 under every schedule within the preemption bound, library built with "
          "-fsanitize=thread; an execution is one schedule; distinct = distinct observation traces",
     explanation="exhaustive schedule enumeration supplies the schedules in which conflicting accesses actually execute; on each one the "
@@ -271,8 +288,8 @@ CHECKS["C14"] = dict(
 )
 
 CHECKS["C09"] = dict(
-    quick=[R("h_raw", "bound=3", sched=True)],
-    thorough=[R("h_raw", "bound=6 oposts=2", sched=True)],
+    quick=[R("h_raw", "bound=3", sched=True), R("h_loops_mt", "bound=2 cycles=2", sched=True)],
+    thorough=[R("h_raw", "bound=6 oposts=2", sched=True), R("h_loops_mt", "bound=4 cycles=3", sched=True)],
     rule="3 backings (eventfd2 / old eventfd / pipe shrunk to 4096 B) x 4 poll methods x 10 poster programs (1 post, 2 posts, burst of 5000 "
          "in one step, post from a signal handler running in the owner thread, post from a forked child, and pairs of these) x owner posting "
          "from a timer and from inside the handler x every schedule within the bound",
@@ -353,7 +370,7 @@ CHECKS["C19"] = dict(
     thorough=[R("h_popen", "bound=0")],
     rule="complete cross product: 4 poll methods x request type r/w x 16 child scripts (exits before the parent continues, dies on the 1st / "
          "2nd / 3rd / 5th termination request, ignores them (dies on the unconditional kill), exits spontaneously at blocking point "
-         "0/1/2/3/6/7, i.e. between two signals, or at the very instant sleep 0/1/2/6 ends, so that SIGCHLD and the due timer are handled in one round) x 5 close timings (right after submit, from a timer now / at 1 s / at 7 s, never closed); "
+         "0/1/2/3/6/7, i.e. between two signals, or at the very instant sleep 0/1/2/6 ends, so that SIGCHLD and the due timer are handled in one round) x with / without an unrelated child that ends in the same SIGCHLD x 5 close timings (right after submit, from a timer now / at 1 s / at 7 s, never closed); "
          "virtual time runs across all 5 s ticks; every case is distinct and non-trivial",
     explanation="the library's child-side code runs in a real helper whose execvp is replaced by an inspection of descriptors 0/1/2 (pipe inode "
                 "and direction vs the descriptor handed to the caller, null device for the others, no stray pipe ends, token round trip); the "
@@ -411,12 +428,13 @@ CHECKS["C15"] = dict(
 C18_RULES = "leak-,fd-mode,stale-callback,cookie," + ABN
 CHECKS["C18"] = dict(
     quick=[
-        R("h_loop", "bound=1 cycles=2 seeds=%s,1,4,5,14,16 nfd=3 ntm=3 ntk=2 nev=2 nraw=1 nsig=1 nwk=1 rules=%s" % (ALL_SEEDS_C01, C18_RULES)),
+        R("h_loop", "bound=1 cycles=2 cloexec_probe=1 seeds=%s,1,4,5,14,16 nfd=3 ntm=3 ntk=2 nev=2 nraw=1 nsig=1 nwk=1 rules=%s" % (ALL_SEEDS_C01, C18_RULES)),
         R("h_loop", "bound=2 cycles=3 seeds=11,4,12 nfd=2 ntm=2 ntk=1 nev=1 nraw=1 nsig=1 ops=%s,fdreg,tmreg,evreg,rawreg,sigreg rules=%s" % (UNREG_OPS, C18_RULES)),
         R("h_theap", "part=boundary depth=2", env=False),
         R("h_theap", "part=closure n=9 keys=3", env=False),
         R("h_pump", "mode=rw bound=3"),
         R("h_pump", "mode=splice bound=1"),
+        R("h_pump", "mode=many bound=0"),
         R("h_inotify", "bound=0"),
         R("h_popen", "bound=0"),
         R("h_thread", "bound=2", sched=True),
